@@ -7,7 +7,7 @@ schedules of e and normalize(e) over whole sample years between the year cut poi
 import json
 
 import vlib
-from checks import norm_common
+from checks import common, norm_common
 
 PID = "C07"
 
@@ -23,6 +23,9 @@ def run(tier, corrupt=0):
         e = by_id[m["id"]]
         c.mismatch("normalize changed the meaning of %r -> %r: %s" % (e["src"], e.get("printed"), json.dumps(m["diff"])[:300]),
                    {"src": e["src"], "printed": e.get("printed"), "ctx": e["ctx"], "diff": m["diff"], "expr": e["expr"]})
+    # values with a history (Session.tla): the normal form of a value that carries a context (holidays, sun events, an
+    # interval-size bound) keeps that context - its reference is the same value built afresh WITHOUT normalisation
+    common.session_phase(c, 600 if tier == "quick" else 12000, plain_ref=True)
     c.add("traces_validated_against_impl", len(lines))
     c.add("evaluations", windows)
     c.add("distinct_nontrivial", changed)
